@@ -370,7 +370,12 @@ func checkC04Cell(c Cell, o *Obs) error {
 	wire = append(wire, wsref.EncodeFrames(cell)...)
 	wire = append(wire, wsref.EncodeFrames(tail)...)
 
-	cfg := ConnCfg{Server: c.Server, Compress: c.Comp}
+	// without negotiated compression, frames with RSV1 are also tried on a
+	// connection whose handshake offered the extension and saw it declined
+	cfg := ConnCfg{Server: c.Server, Compress: c.Comp, Declined: !c.Comp && c.R1 && c.Len%2 == 0}
+	if cfg.Declined {
+		o.Class("rsv1_after_declined_offer")
+	}
 	tr := xport.NewScriptConn(nil, nil)
 	conn, err := NewConn(cfg, tr, nil)
 	if err != nil {
@@ -667,8 +672,8 @@ func genHistCase(t *rapid.T) HistCase {
 	c.S = genStream(t, SGenOpts{MaxMsgs: 4, Compression: c.R.Compress, R: c.R.ReadBuf, AllowHuge: false, NoClose: true})
 	c.Open = rapid.Bool().Draw(t, "open")
 	if c.Open {
-		m := genSMsg(t, SGenOpts{Compression: false, R: c.R.ReadBuf, MaxLen: 2000})
-		m.Compressed = false
+		m := genSMsg(t, SGenOpts{Compression: c.R.Compress, R: c.R.ReadBuf, MaxLen: 2000})
+		m.BFinal = false // a self-terminating deflate stream may legitimately be complete before the cut
 		if len(m.Frags) == 0 {
 			m.Frags = []int{rapid.IntRange(0, m.Data.Len).Draw(t, "openfrag")}
 		}
@@ -787,6 +792,11 @@ func checkC04Hist(c HistCase, o *Obs) error {
 			if m.Complete {
 				return errors.New("message cut by a violating frame was reported complete")
 			}
+			if openMsg.Compressed {
+				// what the wire bytes before the violating frame inflate to is not
+				// known to the model: the data must be a prefix of the payload
+				delivered = len(openMsg.Payload)
+			}
 			if len(m.Data) > delivered || !bytes.Equal(m.Data, openMsg.Payload[:len(m.Data)]) {
 				return fmt.Errorf("open message: %d bytes delivered (%s) but only %d bytes preceded the violating frame — bytes of the violating frame or after it reached the application", len(m.Data), abbrev(m.Data), delivered)
 			}
@@ -822,6 +832,7 @@ func checkC04Hist(c HistCase, o *Obs) error {
 	o.Class(fmt.Sprintf("viol_op%d", c.V.Op))
 	o.ClassIf(c.V.Len == 5, "viol_topbit")
 	o.ClassIf(c.Open, "inside_message")
+	o.ClassIf(openMsg != nil && openMsg.Compressed, "inside_compressed_message")
 	o.ClassIf(nComplete > 0, "completed_before")
 	if nComplete > 0 || c.Open {
 		o.NonTrivial("")
